@@ -26,6 +26,7 @@ KINDS = {
     'ED': ('TRACE_DATA_EXEC', 0), 'ES': ('TRACE_STRING_EXEC', 0), 'TN': ('TRACE_STRING_THREADNAME', 0),
     'TP': ('TRACE_DATA_THREAD_TERMINATE_PID', 0), 'L': ('VFS_LOOKUP', 3), 'K': ('proc_exit', 1), 'Ke': ('proc_exit', 2),
     'TT': ('TRACE_DATA_THREAD_TERMINATE', 0),
+    'PH': ('PERF_STK_UHdr', 0), 'PU': ('PERF_STK_UData', 0),      # stack records logged outside a sample window
 }
 SHARED_TABLE_READERS = {'TraceDataThreadTerminate'}      # renders from tables other threads write: text not compared
 STRINGY = {'NS', 'ES', 'TN'}
@@ -48,7 +49,7 @@ def bounds(tier):
 
 def _programs(tier):
     base = [['ND', 'NS'], ['ED', 'ES'], ['As', 'Ae'], ['ND', 'ES'], ['TN', 'NS'], ['Rs', 'Re'], ['ND', 'ND'], ['NS', 'NS'],
-            ['TT'], ['TT', 'TT']]
+            ['TT'], ['TT', 'TT'], ['PH', 'PU'], ['PH', 'PU', 'PU']]
     if tier == 'thorough':
         base += [['ED', 'NS'], ['TP', 'NS'], ['L', 'Re'], ['Ss', 'Se'], ['ND', 'TN'], ['ES', 'ES'], ['ND'], ['NS'], ['ED'], ['ES']]
     return base
@@ -70,7 +71,7 @@ def structures(tier):
     progs = _programs(tier)
     for p1 in progs:
         for p2 in progs:
-            if tier == 'quick' and not ({'ND', 'NS', 'ED', 'ES', 'TT'} & set(p1 + p2)) and (p1, p2) != (['As', 'Ae'], ['Rs', 'Re']):
+            if tier == 'quick' and not ({'ND', 'NS', 'ED', 'ES', 'TT', 'PH'} & set(p1 + p2)) and (p1, p2) != (['As', 'Ae'], ['Rs', 'Re']):
                 continue
             for order in _interleavings([len(p1), len(p2)]):
                 if list(order) == [0] * len(p1) + [1] * len(p2):
@@ -99,7 +100,7 @@ def structures(tier):
     pres = [[]] + [[k] for k in pre_kinds if KINDS[k][1] == 1]
     if tier == 'thorough':
         pres += [[a, b] for a in pre_kinds if KINDS[a][1] == 1 for b in pre_kinds]
-    ev_kinds = ['As', 'Ae', 'An', 'Ss', 'Se', 'ND', 'NS', 'ED', 'ES', 'TN', 'TT'] if tier == 'quick' else sorted(KINDS)
+    ev_kinds = ['As', 'Ae', 'An', 'Ss', 'Se', 'ND', 'NS', 'ED', 'ES', 'TN', 'TT', 'PH', 'PU'] if tier == 'quick' else sorted(KINDS)
     for pa in pres:
         for pb in pres:
             if pa and pb and pa != pb and (tier == 'quick' or len(pa) + len(pb) > 2):
